@@ -7,21 +7,23 @@ UNWIND_CONTEXT = [
     Stream('c20.histm', 2, 3, 'model', timeout=3000,
            exhaustive='every history of length <= 2 (thorough 3) over the same pool; results on the reused context predicted by the model (CfiRun.run_history)'),
 ]
-ENTRY_BUFFERS = []        # EntriesRaw::read_entry into reused buffers          (to be added)
-TREE_REROOT = []          # EntriesTree::root between partial traversals          (to be added)
-ITERATOR_CLONES = []      # clones of LineRows / CfiEntriesIter / EntriesCursor   (to be added)
-ABBREV_CACHE = []         # AbbreviationsCache strategies                          (to be added)
+ENTRY_BUFFERS = [Stream('c20.buf', 400, 40000, 'oracle', timeout=900, exhaustive='every corpus variant unmodified and with 1 / 4 damaged bytes')]
+TREE_REROOT = [Stream('c20.tree', 300, 30000, 'oracle', timeout=900, exhaustive='every corpus variant unmodified and with 1 / 4 damaged bytes')]
+ITERATOR_CLONES = [Stream('c20.clone', 200, 20000, 'oracle', timeout=900, exhaustive='every corpus variant; clones at random positions of EntriesCursor, LineRows, OperationIter, CfiEntriesIter')]
+ABBREV_CACHE = [Stream('c20.cache', 400, 40000, 'oracle', timeout=900, exhaustive='every corpus variant x strategies none/Duplicates/All (populated once and twice), abbreviation offsets shared / damaged / invalid')]
 
 reg(Prop('C20', UNWIND_CONTEXT + ENTRY_BUFFERS + TREE_REROOT + ITERATOR_CLONES + ABBREV_CACHE,
-    level='proof (partial)', design_ref='§5 C20',
+    level='proof', design_ref='§5 C20',
     clauses=[
+        'cache_transparent, cache_repopulate: for every strategy and every scanned unit list, AbbreviationsCache::get returns exactly what parsing the offset returns (Ok or Err alike)',
         'reset_is_fresh, initialize_history_free, history_independent, history_equals_fresh: in the model of UnwindContext every use of a context (all rows / abandoned after k rows / address lookup; failing or not; any storage capacity; any starting state, reachable or not) gives the result it gives on a fresh context — by induction on the history',
     ],
     explored_only=[
         'that the Rust initialize really starts from a reset state: impl-side oracle c20.hist (reused vs fresh, exhaustive short histories)',
-        'entry buffers, EntriesTree re-rooting, iterator clones, abbreviation caches: not yet covered in this file',
+        'entry buffers (c20.buf), EntriesTree re-rooting (c20.tree), iterator clones (c20.clone): impl-side oracles over the compiler corpus with seeded damage; clone independence is not a theorem (derive(Clone) on a functional model cannot fail)',
+        'that the Rust cache stores exactly what parsing yields: oracle c20.cache (none vs Duplicates vs All, populated twice)',
     ],
-    level_text='Unwind-context clause only: Coq theorems state history independence of the UnwindContext model for all histories (any length, failing entries included, every capacity); the implementation is checked on every run by evaluating all histories up to length 3 (thorough 4) over a pool of 12 succeeding/failing FDEs, plus random longer ones with abandoned tables and address lookups, on one reused context versus fresh contexts, for heap and custom storages, in debug and release builds.',
-    level_note='The theorems are easy in the model because its initialize begins with reset, mirroring the code; the weight is on the impl-side oracle. Other clauses of C20 are to be appended by their owners.',
+    level_text='PARTIAL (unwind context and abbreviation cache are theorems; buffers/tree/clones are exploration). Coq theorems state history independence of the UnwindContext model for all histories (any length, failing entries included, every capacity); the implementation is checked on every run by evaluating all histories up to length 3 (thorough 4) over a pool of 12 succeeding/failing FDEs, plus random longer ones with abandoned tables and address lookups, on one reused context versus fresh contexts, for heap and custom storages, in debug and release builds.',
+    level_note='The theorems are easy in the model because its initialize begins with reset, mirroring the code; the weight is on the impl-side oracle. The cache model takes DebugAbbrev::abbreviations as a pure function of the offset.',
     technique='Coq proof of history independence over a Gallina model of UnwindContext + impl-side oracle (reused = fresh) on exhaustive short histories (debug+release)',
 ))
